@@ -200,7 +200,12 @@ class HierDictDocument(DictDocument):
                 retval = inst
 
             elif issubclass(cls, ComplexModelBase):
-                retval = self._doc_to_object(ctx, cls, inst, validator)
+                # _doc_to_object() turns a missing document into an empty
+                # argument list, which is not what a null member denotes.
+                if inst is None:
+                    retval = None
+                else:
+                    retval = self._doc_to_object(ctx, cls, inst, validator)
 
             else:
                 if cls_attrs.empty_is_none and inst in (u'', b''):
